@@ -443,7 +443,9 @@ def run_task(prop: Any, task: Dict[str, Any]) -> Dict[str, Any]:
         b.fresh = fresh  # not fresh: the run starts by re-seeding the adapter, as every run but the first of a task does
         return b
 
-    a = build()
+    from jsim.core import construct
+
+    a = construct(build)
     stats = Stats()
     digests: List[int] = []
     nontrivial: List[bool] = []
@@ -511,7 +513,11 @@ def run_task(prop: Any, task: Dict[str, Any]) -> Dict[str, Any]:
 def replay(v: Dict[str, Any], path: str) -> int:
     from jsim import envs
 
-    a = AdaptSys(envs.get(v["env"]), v["config"], v["kind"], v.get("aggregators", "default"), int(v.get("seed0", 0)))
+    from jsim.core import construct
+
+    a = construct(AdaptSys, envs.get(v["env"]), v["config"], v.get("kind", "gym"), v.get("aggregators", "default"), int(v.get("seed0", 0)))
+    if v.get("construction_only"):
+        return 0
     a.fresh = bool(v.get("fresh", True))
     try:
         execute(a, v["ops"], Stats())
